@@ -94,7 +94,8 @@ def parse_details(snap, env):
     return out
 
 
-def observe(prog, flavours):
+def observe(prog, flavours, runner=None):
+    """runner: None (RunTest) or "async" / "syncd": the same program run by the Twisted runners (plain programs only)."""
     from . import synth
 
     prog = normalise_prog(prog)
@@ -103,7 +104,8 @@ def observe(prog, flavours):
     for fl in flavours:
         env = synth.Env(prog)
         cls = (
-            synth.SynthSkipped if prog["decor"]
+            synth.RUNNER_CLASSES[runner] if runner
+            else synth.SynthSkipped if prog["decor"]
             else synth.SynthExpectedFailure if prog["xfdec"]
             else synth.SynthRunTestWith if fl == "rtw"
             else synth.SynthPlain
@@ -113,7 +115,7 @@ def observe(prog, flavours):
         flav.append(o)
         if fl == "ext":
             first = (case, env, res, o)
-    if prog["decor"]:
+    if prog["decor"] and not runner:
         # the reason of the decorator is data: an empty one must give the same bracket and outcome
         for fl in flavours:
             env2 = synth.Env(prog)
